@@ -22,6 +22,7 @@ from common import Check, run_check, import_repo, run_driver, rat, unrat, lst, c
 
 THEOREMS = [
     "SleapVerif.C16.ratios_in_unit",
+    "SleapVerif.C16.moks_in_unit",
     "SleapVerif.C16.pck_in_unit",
     "SleapVerif.C16.vis_ratio_in_unit",
     "SleapVerif.C16.envelope_antitone",
@@ -136,7 +137,7 @@ def main(chk: Check):
             for i, x in enumerate(l):
                 if x is inst:
                     return f, i
-        raise KeyError
+        return (-1, -1)  # an object that is neither a user gt instance nor a prediction of this case
 
     def canon_impl(res, gi_all, pi_all):
         _, e, m = res
@@ -144,8 +145,7 @@ def main(chk: Check):
         for a, b, v in e.positive_pairs:
             f, g = locate(gi_all, a.instance)
             f2, p = locate(pi_all, b.instance)
-            assert f == f2
-            pairs.append((f, g, p, float(v)))
+            pairs.append((f if f == f2 else -1, g, p, float(v)))
         fns = [locate(gi_all, a.instance) for a in e.false_negatives]
         return pairs, fns, m
 
@@ -489,8 +489,8 @@ def main(chk: Check):
                          detail=f"before={None if b is None else b.tolist()} after={None if a is None else a.tolist()}")
 
     # ------------------------------------------------------------------ main loop
-    n_cases = chk.n(170, 2500)
-    n_perfect = chk.n(40, 500)
+    n_cases = chk.n(330, 4000)
+    n_perfect = chk.n(70, 800)
     cases = [("gen", gen_case()) for _ in range(n_cases)]
     k = 0
     while k < n_perfect:
